@@ -49,7 +49,17 @@ const (
 	KVecInt
 	KVecObj
 	KErr
+	KVecIntBig // Vector<int> of 12000 items: 48 KiB unpacked, more than one 32 KiB window of a decompressor
 )
+
+// BigVec is the value of a KVecIntBig result.
+func BigVec(tag int32) []int32 {
+	v := make([]int32, 12000)
+	for i := range v {
+		v[i] = tag*7919 + int32(i)*int32(i+3)
+	}
+	return v
+}
 
 // Out is one message the server has decided to send but not yet emitted.
 type Out struct {
@@ -106,6 +116,9 @@ type Options struct {
 	// IDAtGeneration: a message gets its msg_id when it is generated (queued), as real servers do, so that
 	// answering out of order or grouping later also means that an older msg_id arrives after a newer one
 	IDAtGeneration bool
+	// Duplicate: a result may be sent twice (as servers do when an acknowledgement got lost): both copies in
+	// one container, each under its own msg_id
+	Duplicate bool
 	MaxMenu   int
 }
 
@@ -119,6 +132,7 @@ type Server struct {
 	Exec     map[int32]int
 	ExecLog  []int32
 	AckedIDs map[int64]bool
+	AckCount map[int64]int // how many times each id was named in a msgs_ack
 	Content  []int64        // server msg_ids sent with odd seq_no
 	AllSent  map[int64]bool // every msg_id the server has used (messages, container items, containers)
 	Queue    []*Out
@@ -154,7 +168,7 @@ type Server struct {
 }
 
 func New(key []byte, salt int64) *Server {
-	return &Server{Key: key, Salt: salt, Exec: map[int32]int{}, AckedIDs: map[int64]bool{}}
+	return &Server{Key: key, Salt: salt, Exec: map[int32]int{}, AckedIDs: map[int64]bool{}, AckCount: map[int64]int{}}
 }
 
 func (s *Server) problem(f string, a ...any) {
@@ -290,6 +304,7 @@ func (s *Server) OnFrame(raw []byte, connID int) {
 	case idMsgsAck:
 		for _, id := range r.VecI64() {
 			s.AckedIDs[id] = true
+			s.AckCount[id]++
 		}
 	case idPing:
 		pid := r.I64()
@@ -344,6 +359,8 @@ func Payload(tag int32, kind Kind) []byte {
 		w.U32(tlw.Vector).U32(2).U32(ResID).I32(tag).U32(ResID).I32(tag + 1000)
 	case KErr:
 		w.U32(idRpcError).I32(400 + tag%100).Str([]byte(fmt.Sprintf("TEST_ERROR_%d", tag)))
+	case KVecIntBig:
+		w.VecI32(BigVec(tag))
 	}
 	return w.B
 }
@@ -377,6 +394,7 @@ const (
 	actContainer
 	actGzip
 	actScript
+	actDup
 )
 
 type Action struct {
@@ -412,6 +430,13 @@ func (s *Server) Menu() []Action {
 		for i := 0; i < n && i < 2; i++ {
 			if s.Queue[i].IsResult {
 				m = append(m, Action{Kind: actGzip, Idx: []int{i}, Label: "gzip:" + s.Queue[i].Label})
+			}
+		}
+	}
+	if s.Opt.Duplicate {
+		for i := 0; i < n && i < 2; i++ {
+			if s.Queue[i].IsResult {
+				m = append(m, Action{Kind: actDup, Idx: []int{i}, Label: "twice:" + s.Queue[i].Label})
 			}
 		}
 	}
@@ -513,6 +538,28 @@ func (s *Server) Emit(a Action) (frames [][]byte, closeConn bool) {
 			return [][]byte{s.sealRaw(body, o.ID, s.nextSeq(o.Content))}, false
 		}
 		return [][]byte{s.seal(body, o.Content, 0)}, false
+	case actDup:
+		o := take(a.Idx)[0]
+		if o.LazyBody != nil {
+			o.Body = o.LazyBody()
+		}
+		if o.IsResult && s.AfterResult != nil {
+			defer s.AfterResult(s, o.Tag)
+		}
+		w := &tlw.W{}
+		w.U32(idMsgContainer).U32(2)
+		for k := 0; k < 2; k++ {
+			id := s.nextID(1)
+			if k == 0 && o.ID != 0 {
+				id = o.ID
+			}
+			seq := s.nextSeq(o.Content)
+			if o.Content {
+				s.Content = append(s.Content, id)
+			}
+			w.I64(id).I32(seq).I32(int32(len(o.Body))).Raw(o.Body)
+		}
+		return [][]byte{s.sealRaw(w.B, s.nextID(1), s.nextSeq(false))}, false
 	case actContainer:
 		outs := take(a.Idx)
 		w := &tlw.W{}
